@@ -142,6 +142,15 @@ def atom_constraints(a, atoms):
                         out.append(d)
                     elif op == '>=':
                         out.append(sub({(x,): Fraction(1)}, upoly(a, bound)))
+        elif n[0] == 'ite' and len(n) == 4 and T.op(n[1]) == 'rel' and T.node(n[1])[1] in ('<', '<='):
+            # (a < b) ? a : b is min(a, b); (a < b) ? b : a is max(a, b)
+            ca, cb = T.node(n[1])[2], T.node(n[1])[3]
+            if (n[2], n[3]) == (ca, cb):
+                out.append(sub(upoly(a, ca), {(x,): Fraction(1)}))
+                out.append(sub(upoly(a, cb), {(x,): Fraction(1)}))
+            elif (n[2], n[3]) == (cb, ca):
+                out.append(sub({(x,): Fraction(1)}, upoly(a, ca)))
+                out.append(sub({(x,): Fraction(1)}, upoly(a, cb)))
         elif n[0] == 'mc' and n[1].split('::')[-1] in ('size', 'length'):
             out.append({(x,): Fraction(1)})
         elif x in a.octets:
@@ -278,5 +287,8 @@ def index_ok(a, st, base_loc, base_type, idx):
         cap = {(sz,): Fraction(1)}
     G = sub(cap, I)
     padd(G, {(): Fraction(1)}, -1)
-    cons = cons + atom_constraints(a, atoms_of([G] + cons))
+    ac = atom_constraints(a, atoms_of([G] + cons))
+    # the bound of a loop counter may itself be a composite atom (a min/max ternary): one more round for the atoms it brings in
+    ac2 = atom_constraints(a, atoms_of(ac) - atoms_of([G] + cons))
+    cons = cons + ac + ac2
     return prove_ge0(G, cons)
